@@ -126,12 +126,17 @@ def binary(op, a, b, numpoly):
     return getattr(numpoly, op)(a, b)
 
 
+def rng_choice(inp, options):
+    return options[len(inp["route"]) % len(options)]
+
+
 def gen_numeric(tier, rng):
     for _ in range(count(tier, 120, 1200)):
         spec = rand_poly(rng, shape=rng.choice([(2,), (2, 2), ()]), pool=[-1, 1, 2, 3])
         yield {"p": spec, "route": rng.choice(["ndpoly", "from_attributes_retain", "from_attributes", "polynomial_dict", "ndpoly_names",
                                                "multiply_where", "add_where", "call_arrays", "getitem_index", "where_cond",
-                                               "choose_index", "repeat_counts", "monomial_bounds", "glexsort_keys", "savetxt_none"]),
+                                               "choose_index", "repeat_counts", "monomial_bounds", "glexsort_keys", "savetxt_none",
+                                               "glexindex_bounds", "bindex_bounds", "cross_truncate_args", "lead_sortable_args"]),
                "edtype": rng.choice(["uint32", "int64", "uint32", "int32"])}
 
 
@@ -151,7 +156,9 @@ def numeric_arguments(inp):
         mask.reshape(-1)[0] = True
     pts = [numpy.array([1, 2, 3]) for _ in names]
     idx = numpy.array([0])
-    held = {"E": E, "C": C, "mask": mask, "pts": pts, "idx": idx, "p": p}
+    lo, hi = numpy.array([-1, 0]), numpy.array([2, 3])          # index bounds, with a negative lower bound (clipped to 0 inside)
+    grid = numpy.array([[0, 0], [1, 0], [0, 2], [3, 1]])
+    held = {"E": E, "C": C, "mask": mask, "pts": pts, "idx": idx, "p": p, "lo": lo, "hi": hi, "grid": grid}
     before = {k: snapshot(v) for k, v in held.items()}
     route = inp["route"]
     try:
@@ -184,6 +191,16 @@ def numeric_arguments(inp):
             numpoly.monomial(numpy.array([0, 0]), numpy.array([2, 3]))
         elif route == "glexsort_keys":
             numpoly.glexsort(E.T, graded=True, reverse=True)
+        elif route == "glexindex_bounds":
+            numpoly.glexindex(lo, hi, cross_truncation=rng_choice(inp, [1.0, 0, 2.0]))
+            numpoly.glexindex(lo, hi, graded=True, reverse=True)
+        elif route == "bindex_bounds":
+            numpoly.bindex(lo, hi, ordering="GR")
+        elif route == "cross_truncate_args":
+            numpoly.cross_truncate(grid, hi, 1.0)
+            numpoly.cross_truncate(grid, lo, 0)
+        elif route == "lead_sortable_args":
+            numpoly.lead_exponent(p), numpoly.lead_coefficient(p), numpoly.sortable_proxy(p)
         elif route == "savetxt_none":
             import io
             numpoly.savetxt(io.StringIO(), p)
